@@ -49,9 +49,9 @@ TIME_CAP = {"quick": 900, "thorough": 3000}
 # repl mode 1 = every layout, 2 = single-item programs in the plain layout only
 BOUNDS = {
     "quick": dict(spaces=[("full", 1, 2, 3, {1: 1, 2: 1}), ("full", 3, 3, 1, {3: 2}), ("core", 3, 3, 3, {}), ("core", 4, 4, 2, {})],
-                  layouts=["plain", "tight"], target=2500),
+                  layouts=["plain", "tight"], target=800),
     "thorough": dict(spaces=[("full", 1, 3, 3, {1: 1, 2: 1, 3: 1}), ("full", 4, 4, 1, {}), ("core", 4, 4, 3, {4: 2}), ("core", 5, 5, 2, {})],
-                     layouts=["plain", "tight"], target=6000),
+                     layouts=["plain", "tight"], target=4000),
 }
 REPL_MODES = {0: "none", 1: "all programs, all layouts", 2: "single-item programs, plain layout"}
 
@@ -284,7 +284,7 @@ def check_cut(acc, r, snaps, i, do_read, do_repl, cache, case_base):
                 what = "read without error" if got == "ok" else f"raised LexException ({info})"
                 acc.disagree(f"eof-at-{slug}-not-premature", case,
                              f"prefix {prefix!r} ends {cls} (state {state}) but reading it {what} instead of raising PrematureEndOfInput",
-                             sig=f"read:{cls}:{_family(slug)}:{exc}:{msg}", **fields)
+                             sig=f"read:{cls}:{exc}:{msg}", **fields)
 
     if do_repl:
         robs = observe_repl(prefix)
@@ -319,7 +319,7 @@ def check_cut(acc, r, snaps, i, do_read, do_repl, cache, case_base):
                 acc.disagree(f"repl-no-continuation-at-{slug}", case,
                              f"REPL().runsource({prefix!r}) returned False (no continuation prompt) although the input ends {cls} "
                              f"(state {state}); the reader alone: {exc} {info if got != 'ok' else ''}",
-                             sig=f"repl:{cls}:{_family(slug)}:{exc}:{msg}", **fields)
+                             sig=f"repl:{cls}:{exc}:{msg}", **fields)
 
 
 def run_text(acc, r, do_repl, cache, repl_seen, case_base, only_cut=None, only_leg=None):
